@@ -48,6 +48,10 @@ var (
 	c16MapFS   fstest.MapFS
 	c16TreeW   string // wire form of the tree
 	c16InitErr error
+	// round 8: a directory that is NOT always there (see c16LateLayout)
+	c16LateTree  []c16Entry
+	c16LateByRel = map[string]*c16Entry{}
+	c16LateW     string // wire form: n (path node)*
 )
 
 const c16RootName = "public"
@@ -73,6 +77,16 @@ var c16Layout = []string{
 	"elsewhere/", "elsewhere/index.html", "elsewhere/a.txt", "elsewhere/public/", "elsewhere/public/a.txt", "elsewhere/public/index.html",
 	"elsewhere/public/dir/", "elsewhere/public/dir/b.txt", "elsewhere/static/", "elsewhere/static/d.txt", "elsewhere/dir/", "elsewhere/dir/b.txt",
 }
+
+// c16LateLayout: the directory W/late and its content exist only while a case that asks for them runs (child
+// process with working directory W, which runs its cases one after the other): a root that does not exist when a
+// route is registered / a middleware is constructed and is created later, or that is removed again.  `late/secret.txt`,
+// `late/index.html`, `late/a+b.txt` have the names of files of the working directory W (what a bare os.Open(name)
+// would find instead).  The entries are not part of c16Tree / c16TreeW / c16MapFS; the model receives them as the
+// `late` tail of an op line together with the moments at which they exist.
+var c16LateLayout = []string{"late/", "late/l.txt", "late/index.html", "late/secret.txt", "late/a+b.txt", "late/sub/", "late/sub/m.txt", "late/sub/index.html"}
+
+const c16LateDir = "late"
 
 func c16VerifDir() string {
 	for i, a := range os.Args {
@@ -155,6 +169,26 @@ func c16Setup() {
 			}
 		}
 		c16TreeW = strings.Join(parts, " ")
+		lparts := []string{wInt(len(c16LateLayout))}
+		ll := append([]string(nil), c16LateLayout...)
+		sort.Slice(ll, func(i, j int) bool { return strings.TrimSuffix(ll[i], "/") < strings.TrimSuffix(ll[j], "/") }) // listing order, as the main tree
+		for _, p := range ll {
+			if strings.HasSuffix(p, "/") {
+				rel := strings.TrimSuffix(p, "/")
+				c16LateTree = append(c16LateTree, c16Entry{rel: rel, dir: true})
+				lparts = append(lparts, wStr(rel), "0")
+				continue
+			}
+			body := fmt.Sprintf("MARK-OUT-%d:%s\n", id, p)
+			c16LateTree = append(c16LateTree, c16Entry{rel: p, id: id, body: body})
+			c16ByBody[body] = id
+			lparts = append(lparts, wStr(p), wInt(id+1))
+			id++
+		}
+		for i := range c16LateTree {
+			c16LateByRel[c16LateTree[i].rel] = &c16LateTree[i]
+		}
+		c16LateW = strings.Join(lparts, " ")
 		// the listing rule of the oracle relies on these names existing only outside the root
 		for i := range c16Tree {
 			e := &c16Tree[i]
@@ -209,6 +243,73 @@ type c16Case struct {
 	ChdirAt  int    `json:"chdir_at,omitempty"`  // ... 1 after echo.New() (before the routes are registered), 2 after the registration (before the requests)
 	Reassign int    `json:"reassign,omitempty"`  // Echo.Filesystem is reassigned AFTER the routes were registered, before the first request: 1 = os.DirFS(W/elsewhere), 2 = MustSubFS(e.Filesystem, "elsewhere")
 	PVal    string `json:"pval,omitempty"`     // dir variants 26..29: value of the path parameter in front of the static mount
+	// round 8: WHETHER the root exists at the moments a configuration is read
+	Second int  `json:"second,omitempty"` // Kind 1, Kind 2 (variants 0, 1): ANOTHER static route on the same Echo, rooted at W/elsewhere/public (a tree with the same names), see c16Second
+	Late string `json:"late,omitempty"` // four characters 0/1: the directory W/late (with its files) exists at echo.New() / when the route is registered (the middleware constructed) / at the first request / at the request; "" = "0000"
+}
+
+// c16UsesLate: the configurations whose root is named by SubRoot / lies in the directory that comes and goes.
+func c16UsesLate(c *c16Case) bool {
+	switch c.Kind {
+	case 0:
+		return c.FS == 16
+	case 1:
+		return c.Variant >= 30 && c.Variant <= 35
+	case 2:
+		return c.Variant == 10 || c.Variant == 11
+	}
+	return false
+}
+
+func (c *c16Case) lateAt(moment int) bool {
+	return c16UsesLate(c) && len(c.Late) == 4 && c.Late[moment] == '1'
+}
+
+// lateW: the tail of an op line for the model: presence at the four moments and the entries.
+func (c *c16Case) lateW() string {
+	return wJoin(wBool(c.lateAt(0)), wBool(c.lateAt(1)), wBool(c.lateAt(2)), wBool(c.lateAt(3)), c16LateW)
+}
+
+// c16LateSetup makes W/late exist or not at the given moment (child process only: its cases run one after the
+// other; the harness process itself never touches the tree after c16Setup).
+func c16LateSetup(c *c16Case) (step func(moment int), cleanup func()) {
+	if !c16InChild() || !c16UsesLate(c) {
+		return func(int) {}, func() {}
+	}
+	dir := filepath.Join(c16Work, c16LateDir)
+	there := false
+	set := func(want bool) {
+		if want == there {
+			return
+		}
+		there = want
+		if !want {
+			os.RemoveAll(dir)
+			return
+		}
+		for i := range c16LateTree {
+			e := &c16LateTree[i]
+			if e.dir {
+				os.MkdirAll(filepath.Join(c16Work, e.rel), 0o755)
+			} else {
+				os.WriteFile(filepath.Join(c16Work, e.rel), []byte(e.body), 0o644)
+			}
+		}
+	}
+	os.RemoveAll(dir)
+	return func(moment int) { set(c.lateAt(moment)) }, func() { os.RemoveAll(dir) }
+}
+
+// c16Find: the entry of the tree a path relative to W names when the request of case c is served.
+func c16Find(c *c16Case, rel string) (*c16Entry, bool) {
+	if e, ok := c16ByRel[rel]; ok {
+		return e, true
+	}
+	if c.lateAt(3) {
+		e, ok := c16LateByRel[rel]
+		return e, ok
+	}
+	return nil, false
 }
 
 func (c *c16Case) faultsW() string {
@@ -409,8 +510,10 @@ func c16Serve(e *echo.Echo, c *c16Case) (code int, body string, panicked bool, p
 
 func c16ServeH(e *echo.Echo, c *c16Case) (code int, body string, hdr http.Header, panicked bool, pmsg string) {
 	req := httptest.NewRequest(http.MethodGet, "/", nil)
-	req.URL = &url.URL{Path: string(c.Path), RawPath: string(c.RawPath)}
-	req.RequestURI = string(c.Path)
+	// "@W@" in a request path stands for the (run-specific) absolute name of the work directory
+	abs := func(s lat1) string { return strings.ReplaceAll(string(s), c16AbsW, c16Work) }
+	req.URL = &url.URL{Path: abs(c.Path), RawPath: abs(c.RawPath)}
+	req.RequestURI = abs(c.Path)
 	rec := httptest.NewRecorder()
 	func() {
 		defer func() {
@@ -422,6 +525,8 @@ func c16ServeH(e *echo.Echo, c *c16Case) (code int, body string, hdr http.Header
 	}()
 	return rec.Code, rec.Body.String(), rec.Header(), panicked, pmsg
 }
+
+const c16AbsW = "/@W@"
 
 var c16Mark = regexp.MustCompile(`MARK-(?:IN|OUT)-\d+:([^\n]*)`)
 
@@ -455,7 +560,7 @@ func c16Oracle(c *c16Case, mountPrefix, rootRel string, code int, body string, l
 				if rootRel != "" {
 					full = rootRel + "/" + rel
 				}
-				if e, ok := c16ByRel[full]; ok && !e.dir {
+				if e, ok := c16Find(c, full); ok && !e.dir {
 					if code != http.StatusOK || body != e.body {
 						return fmt.Sprintf("existing file %q requested by its clean path %q: status %d, body %q", rel, p, code, c16Short(body))
 					}
@@ -498,19 +603,33 @@ const c16NumMounts = 8
 //	13 default: Root = "../public", working directory = the web root (a root reached through the parent)
 //	14 rec(http.Dir(W)), Root "./public/" (custom file system, unclean Root)
 //	15 rec(http.Dir(W)), Root "/public" (custom file system, rooted Root)
+//	16 default: Root = SubRoot relative to the working directory W — a directory that need not exist when the
+//	   middleware is constructed (`late`: created / removed while the case runs, see Late; `nope`: never there;
+//	   `public/a.txt`: a regular file)
 //
-// 1, 8 and 11 run in a child process whose working directory is W, 9, 10, 12 and 13 in one whose
+// 1, 8, 11 and 16 run in a child process whose working directory is W, 9, 10, 12 and 13 in one whose
 // working directory is W/public.
-const c16NumMwFS = 16
+const c16NumMwFS = 17
 
 // c16MwDefaultFS reports whether the configuration uses the default file system (no Filesystem
 // given), which is what middleware.Static(root) always does.
 func c16MwDefaultFS(f int) bool {
 	switch f {
-	case 0, 1, 8, 9, 10, 11, 12, 13:
+	case 0, 1, 8, 9, 10, 11, 12, 13, 16:
 		return true
 	}
 	return false
+}
+
+// roots on the default file system that need not exist (yet) when they are configured
+var c16LateRoots = []string{"late", "late", "late", "nope", "nope", "late/sub", "public/a.txt", "late/l.txt", "nope/deeper", "./late/", "public/../late", "public"}
+
+// c16RootRelOf: the directory a relative root names from the working directory W ("" = W itself)
+func c16RootRelOf(root string) string {
+	if r := path.Clean(root); r != "." {
+		return r
+	}
+	return ""
 }
 
 var c16MwDefaultRoot = map[int]string{1: c16RootName, 8: "./" + c16RootName + "/", 9: "", 10: "./", 11: c16RootName + "/../" + c16RootName, 12: "dir/..", 13: "../" + c16RootName}
@@ -525,6 +644,27 @@ func c16SkipAnswer(c *c16Case) bool {
 	return false
 }
 
+// c16LateTag: what kind of root the case had, for the evidence histogram
+func c16LateTag(c *c16Case, rootRel string) string {
+	kind := "root-missing"
+	if e, ok := c16ByRel[rootRel]; ok || rootRel == "" {
+		kind = "root-always-there"
+		if ok && !e.dir {
+			kind = "root-is-a-file"
+		}
+	} else if e, ok := c16LateByRel[rootRel]; ok {
+		l := c.Late
+		if len(l) != 4 {
+			l = "0000"
+		}
+		kind = "root-present-" + l
+		if !e.dir {
+			kind = "root-file-present-" + l
+		}
+	}
+	return kind
+}
+
 func c16RunMw(c *c16Case) Result {
 	var names []string
 	cfg := middleware.StaticConfig{Index: c.Index, HTML5: c.HTML5, Browse: c.Browse, IgnoreBase: c.IgnoreBase}
@@ -535,9 +675,14 @@ func c16RunMw(c *c16Case) Result {
 		fault = 0
 	}
 	wrapH := func(f http.FileSystem) http.FileSystem { return c16RecHTTP{c16FaultHTTP{f, fault}, &names} }
+	rootRel := c16RootName
+	late, lateDone := c16LateSetup(c)
+	defer lateDone()
 	switch c.FS {
 	case 0:
 		cfg.Root, rec = c16Root, false
+	case 16:
+		cfg.Root, rec, rootRel = c.SubRoot, false, c16RootRelOf(c.SubRoot)
 	case 1, 8, 11:
 		cfg.Root, rec = c16MwDefaultRoot[c.FS], false
 	case 9, 10, 12, 13:
@@ -563,7 +708,9 @@ func c16RunMw(c *c16Case) Result {
 	rawIndex := c.Index
 	skip := false
 	var rt c16Routing
+	late(0)
 	e := echo.New()
+	late(1)
 	var static echo.MiddlewareFunc
 	if ctor {
 		// the convenience constructor: DefaultStaticConfig with Root set
@@ -616,14 +763,15 @@ func c16RunMw(c *c16Case) Result {
 	defer restore()
 	chdir(1)
 	chdir(2)
-	rootRels := []string{c16RootName}
+	late(2)
+	rootRels := []string{rootRel}
 	if c16InChild() && c.Chdir != "" && c16MwDefaultFS(c.FS) && c.FS != 0 {
 		cwdSegs = strings.Split(c.Chdir, "/")
 		rr := path.Join(c.Chdir, cfg.Root)
 		if rr == "." {
 			rr = ""
 		}
-		rootRels = []string{rr, c16RootName}
+		rootRels = []string{rr, rootRel}
 	}
 	warmOracle := ""
 	if c.Warm != "" {
@@ -631,10 +779,14 @@ func c16RunMw(c *c16Case) Result {
 		w := *c
 		w.Path, w.RawPath = c.Warm, ""
 		wc, wb, _, _ := c16Serve(e, &w)
-		warmOracle = c16Oracle(&w, "\x00", c16RootName, wc, wb, nil, false)
+		warmOracle = c16Oracle(&w, "\x00", rootRel, wc, wb, nil, false)
+		if warmOracle != "" && c16UsesLate(c) && c.Mount == 6 && rt.nextCalled && rt.nextOK {
+			warmOracle = c16Oracle(&w, "\x00", c16RootName+"/static", wc, wb, nil, false) // the second instance answered
+		}
 		names = nil
 		rt = c16Routing{}
 	}
+	late(3)
 	code, body, panicked, pmsg := c16Serve(e, c)
 	out, listed := c16Outcome(0, code, body, panicked)
 	tags := []string{fmt.Sprintf("mw-mount-%d", c.Mount), fmt.Sprintf("mw-fs-%d", c.FS), "out-" + strings.SplitN(out, " ", 2)[0]}
@@ -669,7 +821,10 @@ func c16RunMw(c *c16Case) Result {
 		// a skipped middleware serves nothing; a file system whose files fail is not a working root
 		mp = "\x00"
 	}
-	oracle := c16Oracle(c, mp, c16RootName, code, body, listed, strings.HasPrefix(out, "list"))
+	oracle := c16Oracle(c, mp, rootRel, code, body, listed, strings.HasPrefix(out, "list"))
+	if c16UsesLate(c) {
+		tags = append(tags, "late-"+c16LateTag(c, rootRel))
+	}
 	if len(rootRels) > 1 {
 		// after a chdir the relative Root of http.Dir names another directory: content from the directory it named when
 		// the middleware was constructed or from the one it names now is within the configured root; nothing else is
@@ -679,6 +834,10 @@ func c16RunMw(c *c16Case) Result {
 		}
 		warmOracle = ""
 		tags = append(tags, "chdir-mw")
+	}
+	if c16UsesLate(c) && c.Mount == 6 && oracle != "" && rt.nextCalled && rt.nextOK {
+		// the second instance of the chain (rooted at public/static) answered: judged by ITS root
+		oracle = c16Oracle(c, "\x00", c16RootName+"/static", code, body, listed, strings.HasPrefix(out, "list"))
 	}
 	if oracle == "" && warmOracle != "" {
 		oracle = "first request " + string(c.Warm) + ": " + warmOracle
@@ -720,6 +879,9 @@ func c16RunMw(c *c16Case) Result {
 	ops := wJoin("4", wBool(rec), c16TreeW, wStrs(given), wJoin(wBool(fault == 1), wBool(fault == 2), wBool(fault == 3), "0"), wBool(skip),
 		wStr(rawRoot), wStr(rawIndex), wBool(cfg.HTML5), wBool(cfg.Browse), wBool(cfg.IgnoreBase), fsOpt, wStrs(cwdSegs),
 		wStr(rt.cPath), wStr(rt.star), wStr(rt.urlPath), wBool(rt.nextCalled && rt.nextOK))
+	if c16UsesLate(c) {
+		ops = wJoin(ops, c.lateW())
+	}
 	obs := out
 	if rec {
 		obs = wJoin(wStrs(names), out)
@@ -749,7 +911,85 @@ func c16RunMw(c *c16Case) Result {
 //	26 e.Static("/v/:ver/assets", root)     27 e.Group("/:tenant").Static("/files", root)
 //	28 e.StaticFS("/:a/:b/s", rec(os.DirFS(root)))     29 e.Group("/:tenant").StaticFS("/files", rec(fs.Sub(MapFS, "public")))
 //	   (26..29: the mount is below path parameters; PVal is the first parameter's value and may name a file or directory under the root)
-const c16NumDirVariants = 30
+//	30..35 (cwd W) the DEFAULT file system with a root R = SubRoot that need not exist when the route is registered
+//	   (`late`: created / removed while the case runs, see Late; `nope`: never there; `public/a.txt`: a regular file):
+//	30 e.Static(prefix, R)     31 g=/g: g.Static(prefix, R)     32 e.Static(prefix, <absolute W>/R)
+//	33 e.StaticFS(prefix, MustSubFS(e.Filesystem, R))
+//	34 e.Filesystem = MustSubFS(e.Filesystem, R); e.Static(prefix, "sub")      35 ... ; g=/g: g.Static(prefix, ".")
+//	36..38 the exported handler mounted by hand (an application's own route):
+//	36 e.GET(prefix+"*", echo.StaticDirectoryHandler(rec(os.DirFS(root)), true))   — path unescaping DISABLED: the parameter is used as it is
+//	37 g=/g: g.GET(prefix+"*", echo.StaticDirectoryHandler(rec(fs.Sub(MapFS, "public")), true))
+//	38 e.GET(prefix+"*", echo.StaticDirectoryHandler(rec(os.DirFS(root)), false))
+const c16NumDirVariants = 39
+
+// c16Second: a second static route registered on the same Echo instance, after (or before) the case's own one, rooted
+// at W/elsewhere/public — a directory with files of the same names (a.txt, index.html, dir/b.txt) and other content.
+// What one registration stores must not reach the other: a request under the case's mount is answered from the
+// case's root, a request under the second mount from the second root.
+//
+//	1 after:  e.StaticFS("/zz", os.DirFS(EP))        2 before: the same
+//	3 after:  e.Group("/zz").StaticFS("/s", os.DirFS(EP))
+//	4 after:  e.Static("/zz", EP)      5 before: the same      6 after: e.Group("/g").Static("/zz", EP)
+//	  (4..6 only where Echo.Filesystem is the default one — Echo.Static / Group.Static twice —, otherwise as 1 / 2 / 3)
+const c16SecondRootRel = c16Elsewhere + "/" + c16RootName
+
+func c16SecondDefaultFS(c *c16Case) bool {
+	switch c.Variant {
+	case 0, 1, 4, 8, 9, 10, 11, 12, 18, 19, 26, 27, 30, 31, 32, 33:
+		return true
+	}
+	return false
+}
+
+// c16SecondRoute: route pattern and mount of the second registration ("" = none)
+func c16SecondRoute(c *c16Case) (pattern, mount string) {
+	k := c.Second
+	if k >= 4 && !c16SecondDefaultFS(c) {
+		k -= 3
+	}
+	switch k {
+	case 1, 2, 4, 5:
+		return "/zz*", "/zz"
+	case 3:
+		return "/zz/s*", "/zz/s"
+	case 6:
+		return "/g/zz*", "/g/zz"
+	}
+	return "", ""
+}
+
+func c16RegisterSecond(e *echo.Echo, c *c16Case, before bool) {
+	k := c.Second
+	if k >= 4 && !c16SecondDefaultFS(c) {
+		k -= 3
+	}
+	ep := filepath.Join(c16Work, c16Elsewhere, c16RootName)
+	switch {
+	case k == 1 && !before, k == 2 && before:
+		e.StaticFS("/zz", os.DirFS(ep))
+	case k == 3 && !before:
+		e.Group("/zz").StaticFS("/s", os.DirFS(ep))
+	case k == 4 && !before, k == 5 && before:
+		e.Static("/zz", ep)
+	case k == 6 && !before:
+		e.Group("/g").Static("/zz", ep)
+	}
+}
+
+// c16LateRootsOf: the roots applied in turn to the default file system by variants 30..35, and the resulting
+// root relative to W
+func c16LateRootsOf(c *c16Case) (roots []string, rel string) {
+	rel = c16RootRelOf(c.SubRoot)
+	switch c.Variant {
+	case 32:
+		return []string{"/W/" + c.SubRoot}, rel
+	case 34:
+		return []string{c.SubRoot, "sub"}, path.Join(rel, "sub")
+	case 35:
+		return []string{c.SubRoot, "."}, rel
+	}
+	return []string{c.SubRoot}, rel
+}
 
 var c16PVals = []string{"1", "acme", "a.txt", "dir", "index.html", "secret.txt", "%2e%2e", "..", "a+b.txt", "static", "v1..2", "..hidden", "x", "dir%2fb.txt", "empty"}
 
@@ -838,21 +1078,43 @@ func c16RunDir(c *c16Case) Result {
 	var rt c16Routing
 	chdir, restore := c16ChdirSetup(c)
 	defer restore()
+	late, lateDone := c16LateSetup(c)
+	defer lateDone()
+	late(0)
 	e := echo.New()
 	chdir(1)
+	late(1)
 	e.Use(rt.rec)
 	rec := false
 	mount := c.Prefix
 	rootRel, subOpt, fault := c16RootName, "0", 0
 	concrete := "" // the request prefix of a mount whose route pattern has path parameters
 	configPanic := false
+	rawOp := false // variants 36, 37: the model's raw handler (op 7)
 	func() {
 		defer func() {
 			if p := recover(); p != nil {
 				configPanic = true
 			}
 		}()
+		c16RegisterSecond(e, c, true)
+		defer func() {
+			if p := recover(); p != nil {
+				panic(p)
+			}
+			c16RegisterSecond(e, c, false)
+		}()
 		switch c.Variant {
+		case 36:
+			rec, rawOp = true, true
+			e.GET(c.Prefix+"*", echo.StaticDirectoryHandler(c16RecFS{os.DirFS(c16Root), &names}, true))
+		case 37:
+			rec, rawOp = true, true
+			mount = "/g" + c.Prefix
+			e.Group("/g").GET(c.Prefix+"*", echo.StaticDirectoryHandler(c16RecFS{c16Sub(c16MapFS, c16RootName), &names}, true))
+		case 38:
+			rec = true
+			e.GET(c.Prefix+"*", echo.StaticDirectoryHandler(c16RecFS{os.DirFS(c16Root), &names}, false))
 		case 0:
 			e.Static(c.Prefix, c16Root)
 		case 1:
@@ -920,6 +1182,28 @@ func c16RunDir(c *c16Case) Result {
 			default:
 				e.Static(c.Prefix, last)
 			}
+		case 30, 31, 32, 33, 34, 35:
+			var roots []string
+			roots, rootRel = c16LateRootsOf(c)
+			subOpt = wJoin("2", wStrs(nil), wStrs(roots))
+			switch c.Variant {
+			case 30:
+				e.Static(c.Prefix, c.SubRoot)
+			case 31:
+				mount = "/g" + c.Prefix
+				e.Group("/g").Static(c.Prefix, c.SubRoot)
+			case 32:
+				e.Static(c.Prefix, c16Work+"/"+c.SubRoot)
+			case 33:
+				e.StaticFS(c.Prefix, echo.MustSubFS(e.Filesystem, c.SubRoot))
+			case 34:
+				e.Filesystem = echo.MustSubFS(e.Filesystem, c.SubRoot)
+				e.Static(c.Prefix, "sub")
+			default:
+				e.Filesystem = echo.MustSubFS(e.Filesystem, c.SubRoot)
+				mount = "/g" + c.Prefix
+				e.Group("/g").Static(c.Prefix, ".")
+			}
 		case 26:
 			mount, concrete = "/v/:ver/assets", "/v/"+c.PVal+"/assets"
 			e.Static(mount, c16Root)
@@ -950,7 +1234,11 @@ func c16RunDir(c *c16Case) Result {
 	// the routes are registered: from here on neither a change of the working directory nor a new
 	// Echo.Filesystem may move the root of a Static / StaticFS route
 	chdir(2)
+	late(2)
 	c16Reassign(e, c, &names, false)
+	if c16UsesLate(c) {
+		tags = append(tags, "late-"+c16LateTag(c, rootRel))
+	}
 	if c.Reassign != 0 {
 		tags = append(tags, fmt.Sprintf("filesystem-reassigned-%d", c.Reassign))
 	}
@@ -972,6 +1260,8 @@ func c16RunDir(c *c16Case) Result {
 			roots = []string{c16RootName}
 		case c.Variant >= 20 && c.Variant <= 25:
 			roots = c16Derived[c.Variant].roots
+		case c.Variant >= 30 && c.Variant <= 35:
+			roots, _ = c16LateRootsOf(c)
 		default:
 			roots = []string{c16DotRoots[c.Variant]}
 		}
@@ -990,7 +1280,11 @@ func c16RunDir(c *c16Case) Result {
 		w.Path, w.RawPath = c.Warm, ""
 		wc, wb, _, _ := c16Serve(e, &w)
 		if warmOracle == "" {
-			warmOracle = c16Oracle(&w, "\x00", rootRel, wc, wb, nil, false)
+			wroot := rootRel
+			if sp, _ := c16SecondRoute(c); sp != "" && rt.cPath == sp {
+				wroot = c16SecondRootRel
+			}
+			warmOracle = c16Oracle(&w, "\x00", wroot, wc, wb, nil, false)
 			if warmOracle != "" {
 				warmOracle = "first request " + string(c.Warm) + ": " + warmOracle
 			}
@@ -999,6 +1293,7 @@ func c16RunDir(c *c16Case) Result {
 		rt = c16Routing{}
 		tags = append(tags, "warm-request")
 	}
+	late(3)
 	code, body, panicked, _ := c16Serve(e, c)
 	out, listed := c16Outcome(1, code, body, panicked)
 	tags = append(tags, "out-"+strings.SplitN(out, " ", 2)[0])
@@ -1011,6 +1306,14 @@ func c16RunDir(c *c16Case) Result {
 		mp = "\x00" // a file system whose Stat fails is not a working root
 	}
 	oracle := c16Oracle(c, mp, rootRel, code, body, listed, strings.HasPrefix(out, "list"))
+	if sp, sm := c16SecondRoute(c); sp != "" {
+		tags = append(tags, fmt.Sprintf("second-static-route-%d", c.Second))
+		if rt.seen && rt.cPath == sp {
+			// the second route answered: judged by ITS root
+			oracle = c16Oracle(c, sm, c16SecondRootRel, code, body, listed, strings.HasPrefix(out, "list"))
+			tags = append(tags, "second-static-route-answered")
+		}
+	}
 	if warmOracle != "" {
 		oracle = warmOracle
 	}
@@ -1023,6 +1326,12 @@ func c16RunDir(c *c16Case) Result {
 		return Result{Obs: out, Oracle: oracle, Tags: append(tags, "dir-other-route")}
 	}
 	ops := wJoin("5", wBool(rec), c16TreeW, wStrs([]string{c16RootName}), faultsW, subOpt, wStr(rt.star), wStr(rt.urlPath))
+	if rawOp {
+		ops = wJoin("7", wBool(rec), c16TreeW, wStrs([]string{c16RootName}), faultsW, wStr(rt.star), wStr(rt.urlPath))
+	}
+	if c16UsesLate(c) {
+		ops = wJoin(ops, c.lateW())
+	}
 	if strings.HasPrefix(subOpt, "2 ") {
 		tags = append(tags, "dir-derived-default-fs")
 	}
@@ -1043,7 +1352,9 @@ func c16RunDir(c *c16Case) Result {
 //	7 GET /dl/* -> c.FileFS(c.Param("*"), rec(failing(os.DirFS(root))))  (a download handler: the name comes from the request)
 //	8 e.Filesystem = rec(os.DirFS(W)); g=/g: g.File("/f", "public/"+file)
 //	9 the DEFAULT Echo.Filesystem with an absolute name: GET /f -> c.File(<root>/file)
-const c16NumFileVariants = 10
+//	10 (cwd W) e.Filesystem = MustSubFS(e.Filesystem, R); e.File("/f", file)     11 ... ; g=/g: g.File("/f", file)
+//	   (the default file system narrowed to a root R = SubRoot that need not exist at that moment, see dir variants 30..35)
+const c16NumFileVariants = 12
 
 // Context.FileFS is a method of echo's context type that the Context interface does not list;
 // an application reaches it through an interface assertion.
@@ -1059,7 +1370,11 @@ func c16CtxFileFS(ec echo.Context, file string, fsys fs.FS) error {
 func c16RunFile(c *c16Case) Result {
 	var names []string
 	var rt c16Routing
+	late, lateDone := c16LateSetup(c)
+	defer lateDone()
+	late(0)
 	e := echo.New()
+	late(1)
 	e.Use(rt.rec)
 	rec := true
 	fault := 0
@@ -1067,7 +1382,26 @@ func c16RunFile(c *c16Case) Result {
 	name := c.File
 	rootSegs := []string{c16RootName}
 	osOpt, dispOpt := "0", "0"
+	rootRel := c16RootName
+	secondFile := (c.Variant == 0 || c.Variant == 1) && (c.Second == 1 || c.Second == 2)
+	ep := filepath.Join(c16Work, c16Elsewhere, c16RootName)
+	if secondFile && c.Second == 2 {
+		e.FileFS("/zzf", c.File, os.DirFS(ep)) // another File route for the same name in another tree, registered first
+	}
 	switch c.Variant {
+	case 10, 11:
+		rec, osOpt, rootRel = false, "2", c16RootRelOf(c.SubRoot)
+		rootSegs = nil
+		if rootRel != "" {
+			rootSegs = strings.Split(rootRel, "/")
+		}
+		e.Filesystem = echo.MustSubFS(e.Filesystem, c.SubRoot)
+		if c.Variant == 10 {
+			e.File("/f", c.File)
+		} else {
+			e.Group("/g").File("/f", c.File)
+			route = "/g/f"
+		}
 	case 0:
 		e.FileFS("/f", c.File, c16RecFS{os.DirFS(c16Root), &names})
 	case 1:
@@ -1113,12 +1447,17 @@ func c16RunFile(c *c16Case) Result {
 		name = "/W/" + c16RootName + "/" + c.File
 		e.GET("/f", func(ec echo.Context) error { return ec.File(c16Root + "/" + c.File) })
 	}
+	if secondFile && c.Second == 1 {
+		e.FileFS("/zzf", c.File, os.DirFS(ep)) // ... registered afterwards
+	}
 	// a File route reads Echo.Filesystem (and, on the default file system, the working directory) when the
 	// request is served: a reassignment / chdir after the registration is followed
 	chdir, restore := c16ChdirSetup(c)
 	defer restore()
 	chdir(1)
 	chdir(2)
+	late(2)
+	late(3)
 	fileBase := c16RootName // the directory the relative name of variants 2, 6, 8 is resolved in, relative to W
 	moved := false
 	if c.Variant == 6 && c16InChild() && c.Chdir != "" {
@@ -1175,10 +1514,22 @@ func c16RunFile(c *c16Case) Result {
 			oracle = fmt.Sprintf("existing file %q named by the route: status %d, body %q", c.File, code, c16Short(body))
 		}
 	} else {
-		oracle = c16Oracle(c, mp, c16RootName, code, body, listed, false)
+		oracle = c16Oracle(c, mp, rootRel, code, body, listed, false)
+		if secondFile {
+			tags = append(tags, fmt.Sprintf("second-file-route-%d", c.Second))
+			if rt.seen && rt.cPath == "/zzf" {
+				oracle = c16Oracle(c, "\x00", c16SecondRootRel, code, body, listed, false) // the second route answered: its root
+				if want, ok := c16ByRel[path.Join(c16SecondRootRel, c.File)]; oracle == "" && ok && !want.dir && string(c.Path) == "/zzf" && c.RawPath == "" && c.File != "" && c.File != "." && path.Clean(c.File) == c.File && c.File != ".." && !strings.HasPrefix(c.File, "../") && (code != http.StatusOK || body != want.body) {
+					oracle = fmt.Sprintf("existing file %q named by the second route /zzf: status %d, body %q", c.File, code, c16Short(body))
+				}
+			}
+		}
+		if c16UsesLate(c) {
+			tags = append(tags, "late-"+c16LateTag(c, rootRel))
+		}
 		// a File route naming an existing regular file under the root by its clean path serves its bytes
-		if oracle == "" && c.Variant != 7 && fault != 1 && fault != 2 && string(c.Path) == route && c.RawPath == "" && c.File != "" && path.Clean(c.File) == c.File && c.File != ".." && !strings.HasPrefix(c.File, "../") {
-			if want, ok := c16ByRel[c16RootName+"/"+c.File]; ok && !want.dir && (code != http.StatusOK || body != want.body) {
+		if oracle == "" && c.Variant != 7 && fault != 1 && fault != 2 && string(c.Path) == route && c.RawPath == "" && c.File != "" && c.File != "." && path.Clean(c.File) == c.File && c.File != ".." && !strings.HasPrefix(c.File, "../") {
+			if want, ok := c16Find(c, path.Join(rootRel, c.File)); ok && !want.dir && (code != http.StatusOK || body != want.body) {
 				oracle = fmt.Sprintf("existing file %q named by the route %q: status %d, body %q", c.File, route, code, c16Short(body))
 			}
 		}
@@ -1191,6 +1542,9 @@ func c16RunFile(c *c16Case) Result {
 	}
 	faultsW := wJoin(wBool(fault == 1), wBool(fault == 2), "0", wBool(fault == 4))
 	ops := wJoin("6", wBool(rec), c16TreeW, wStrs(rootSegs), faultsW, osOpt, wStr(name), dispOpt)
+	if c16UsesLate(c) {
+		ops = wJoin(ops, c.lateW())
+	}
 	obs := out
 	if rec {
 		obs = wJoin(wStrs(names), out)
@@ -1464,10 +1818,23 @@ var c16Files = []string{"a.txt", "dir", "dir/b.txt", "nope", "../secret.txt", ".
 	"empty", ".", "", "dir/sub/c.txt", "./a.txt", "static", "a+b.txt", "a b.txt", "c++/n.txt", "q&a=1;x.txt", "wh?at#.txt", "100%.txt", "pct%2e.txt",
 	"\xc3\xa9.txt", "a.txt/", "dir/index.html", "static/index.html", "../a+b.txt", "dir/../a.txt", "b\\s.txt", "index.html", "../public/a.txt", "..", "dir/sub/../b.txt", "nope/../a.txt", "empty/../a.txt", "a.txt/../a.txt"}
 
+// presence of W/late at echo.New() / registration / first request / request
+var c16LatePatterns = []string{"0000", "0011", "0011", "0001", "0001", "0111", "1111", "1100", "1101", "0010", "1000", "0110", "1011", "0100"}
+
+// what a request may name when the root is missing: paths relative to the working directory W (what a bare
+// os.Open(name) would resolve), absolute names (after a double slash), climbing forms, names inside the late directory
+var c16LateTargets = []string{"secret.txt", "index.html", "a+b.txt", "secret", "public/a.txt", "public/index.html", "static/s.txt", "static/index.html", "static", "public",
+	"l.txt", "sub/m.txt", "sub/index.html", "sub", "sub/", "", "late/l.txt", "late/secret.txt", "late", "m.txt",
+	"../secret.txt", "../late/l.txt", "sub/../../secret.txt", "../../secret.txt", "%2e%2e/secret.txt", "..%2fsecret.txt", "./secret.txt", "nope/../secret.txt",
+	c16AbsW + "/secret.txt", c16AbsW + "/public/a.txt", c16AbsW + "/late/l.txt", c16AbsW, "/etc/hostname", "/secret.txt", "/late/l.txt", "%2f" + c16AbsW[1:] + "/secret.txt"}
+
+var c16LateFiles = []string{"l.txt", "secret.txt", "index.html", "a+b.txt", "sub/m.txt", "sub", "sub/", "m.txt", "", ".", "../secret.txt", "../late/l.txt", "late/l.txt", "public/a.txt",
+	"a.txt", "secret", "sub/../l.txt", "./l.txt", "/etc/hostname", "static/s.txt", "l.txt/"}
+
 func c16DirMount(c *c16Case) string {
 	mount := strings.TrimSuffix(c.Prefix, "/")
 	switch c.Variant {
-	case 4, 5, 12, 15, 17, 22:
+	case 4, 5, 12, 15, 17, 22, 31, 35, 37:
 		mount = "/g" + mount
 	case 26:
 		return "/v/" + c.PVal + "/assets"
@@ -1492,6 +1859,20 @@ func c16GenCase(r *rand.Rand, big bool) *c16Case {
 			c.SubRoot = c16Pick(r, c16SubRoots)
 		case 16, 17:
 			c.Fault = []int{0, 1, 2, 4, 4}[r.Intn(5)]
+		case 30, 31, 32, 33, 34, 35:
+			c.SubRoot = c16Pick(r, c16LateRoots)
+			c.Late = c16Pick(r, c16LatePatterns)
+		}
+		if c16UsesLate(c) && r.Intn(3) != 0 {
+			t := c16Pick(r, c16LateTargets)
+			if r.Intn(4) == 0 && !strings.Contains(t, "@") {
+				t = c16Encode(r, t)
+			}
+			c16SetTarget(r, c, c16DirMount(c)+"/"+t)
+			if r.Intn(3) == 0 {
+				c.Warm = lat1(c16DirMount(c) + "/" + c16Pick(r, c16LateTargets))
+			}
+			return c
 		}
 		c16SetTarget(r, c, c16GenTarget(r, c16DirMount(c), big))
 		if r.Intn(6) == 0 {
@@ -1503,12 +1884,41 @@ func c16GenCase(r *rand.Rand, big bool) *c16Case {
 		if r.Intn(5) == 0 {
 			c.Reassign = 1 + r.Intn(2)
 		}
+		if r.Intn(5) == 0 {
+			c.Second = 1 + r.Intn(6)
+			if _, sm := c16SecondRoute(c); r.Intn(4) == 0 {
+				// a request for the second route
+				c16SetTarget(r, c, c16GenTarget(r, sm, big))
+				if r.Intn(2) == 0 {
+					c.Path, c.RawPath = lat1(sm+"/"+c16Pick(r, []string{"a.txt", "index.html", "dir/b.txt", "", "dir", "../a.txt", "../../secret.txt", "nope"})), ""
+				}
+			}
+		}
 	case 3:
 		c.Kind = 2
 		c.Variant = r.Intn(c16NumFileVariants)
 		c.File = c16Pick(r, c16Files)
 		c.Path = "/f"
+		if (c.Variant == 0 || c.Variant == 1) && r.Intn(3) == 0 {
+			c.Second = 1 + r.Intn(2)
+			if c.Variant == 1 {
+				c.Path = "/g/f"
+			}
+			if r.Intn(4) == 0 {
+				c.Path = "/zzf"
+			}
+			return c
+		}
 		switch c.Variant {
+		case 10, 11:
+			c.SubRoot = c16Pick(r, c16LateRoots)
+			c.Late = c16Pick(r, c16LatePatterns)
+			if r.Intn(3) != 0 {
+				c.File = c16Pick(r, c16LateFiles)
+			}
+			if c.Variant == 11 {
+				c.Path = "/g/f"
+			}
 		case 1, 8:
 			c.Path = "/g/f"
 		case 3:
@@ -1547,6 +1957,10 @@ func c16GenCase(r *rand.Rand, big bool) *c16Case {
 		if r.Intn(5) == 0 {
 			c.Skip = 1 + r.Intn(3)
 		}
+		if c.FS == 16 {
+			c.SubRoot = c16Pick(r, c16LateRoots)
+			c.Late = c16Pick(r, c16LatePatterns)
+		}
 		if c16MwDefaultFS(c.FS) && c.FS != 0 && r.Intn(5) == 0 {
 			c.Chdir, c.ChdirAt = c16Pick(r, []string{c16Elsewhere, c16Elsewhere + "/public"}), 1+r.Intn(2)
 		}
@@ -1567,6 +1981,17 @@ func c16GenCase(r *rand.Rand, big bool) *c16Case {
 		if c.Skip == 3 && r.Intn(2) == 0 {
 			// requests the path-prefix Skipper lets through to the next handler
 			c16SetTarget(r, c, "/api/"+c16Pick(r, []string{"ok", "../a.txt", "../../secret", "a.txt", "", "%2e%2e/secret.txt", "../index.html"}))
+			return c
+		}
+		if c.FS == 16 && r.Intn(3) != 0 {
+			t := c16Pick(r, c16LateTargets)
+			if r.Intn(4) == 0 && !strings.Contains(t, "@") {
+				t = c16Encode(r, t)
+			}
+			c16SetTarget(r, c, c16MwMountPrefix[c.Mount]+"/"+t)
+			if r.Intn(3) == 0 {
+				c.Warm = lat1(c16MwMountPrefix[c.Mount] + "/" + c16Pick(r, c16LateTargets))
+			}
 			return c
 		}
 		c16SetTarget(r, c, c16GenTarget(r, c16MwMountPrefix[c.Mount], big))
@@ -1641,11 +2066,90 @@ func c16Gen(r *rand.Rand, tier string) []any {
 			dc.Path = lat1(c16DirMount(dc) + "/" + rel)
 			out = append(out, dc)
 		}
+		// ... with a second static route on the same Echo (registered before / after, Echo and Group, Static and StaticFS)
+		// and through the exported handler mounted by hand (with and without path unescaping)
+		for _, vs := range [][2]int{{0, 4}, {0, 5}, {4, 6}, {2, 1}, {2, 2}, {5, 3}, {0, 1}, {4, 4}} {
+			dc := &c16Case{Kind: 1, Variant: vs[0], Prefix: "/assets", Second: vs[1]}
+			dc.Path = lat1(c16DirMount(dc) + "/" + rel)
+			out = append(out, dc)
+		}
+		if _, ok := c16ByRel[c16SecondRootRel+"/"+rel]; ok {
+			// the same name exists in the second tree: asked under the second mount it comes from there
+			for _, vs := range [][2]int{{0, 4}, {0, 5}, {4, 6}, {2, 1}, {2, 2}, {5, 3}} {
+				dc := &c16Case{Kind: 1, Variant: vs[0], Prefix: "/assets", Second: vs[1]}
+				_, sm := c16SecondRoute(dc)
+				dc.Path = lat1(sm + "/" + rel)
+				out = append(out, dc)
+			}
+			for k := 1; k <= 2; k++ {
+				out = append(out, &c16Case{Kind: 2, Variant: 0, File: rel, Second: k, Path: "/f"}, &c16Case{Kind: 2, Variant: 0, File: rel, Second: k, Path: "/zzf"},
+					&c16Case{Kind: 2, Variant: 1, File: rel, Second: k, Path: "/g/f"})
+			}
+		}
 		// ... and through the convenience constructor and a Skipper that lets the request pass
 		for _, f := range []int{0, 1, 9, 13} {
 			out = append(out, &c16Case{Kind: 0, Mount: 0, FS: f, Ctor: true, Path: lat1("/" + rel)})
 		}
 		out = append(out, &c16Case{Kind: 0, Mount: 2, FS: 3, Skip: 3, Path: lat1("/static/" + rel)})
+	}
+	// a root on the default file system that does not exist (or is a regular file, or is created / removed while the
+	// case runs): (a) every file of the directory by its clean path, through every such configuration, for every
+	// history in which the directory is there when the request is served; (b) every file of the working directory W
+	// by its path relative to W, by its absolute name and by a climbing name, against roots that are not there
+	k8 := 0
+	for _, e := range c16LateLayout {
+		if strings.HasSuffix(e, "/") {
+			continue
+		}
+		rel := strings.TrimPrefix(e, c16LateDir+"/")
+		for _, pat := range []string{"0011", "0001", "1111", "0111", "1101", "1011"} {
+			for v := 30; v <= 35; v++ {
+				dc := &c16Case{Kind: 1, Variant: v, Prefix: "/assets", SubRoot: c16LateDir, Late: pat}
+				full := rel
+				if v == 34 {
+					if !strings.HasPrefix(rel, "sub/") {
+						continue
+					}
+					full = strings.TrimPrefix(rel, "sub/")
+				}
+				dc.Path = lat1(c16DirMount(dc) + "/" + full)
+				if pat == "0001" || pat == "1101" {
+					dc.Warm = dc.Path // the same file asked for while the directory is not there
+				}
+				out = append(out, dc)
+			}
+			out = append(out, &c16Case{Kind: 2, Variant: 10 + k8%2, SubRoot: c16LateDir, Late: pat, File: rel, Path: lat1([]string{"/f", "/g/f"}[k8%2])})
+			mc := &c16Case{Kind: 0, Mount: []int{0, 2, 3}[k8%3], FS: 16, SubRoot: c16LateDir, Late: pat, Ctor: k8%2 == 0}
+			mc.Path = lat1(c16MwMountPrefix[mc.Mount] + "/" + rel)
+			if pat == "0001" {
+				mc.Warm = mc.Path
+			}
+			out = append(out, mc)
+			k8++
+		}
+	}
+	for _, p := range append(append([]string(nil), c16Layout...), c16LateLayout...) {
+		if strings.HasSuffix(p, "/") {
+			continue
+		}
+		for _, t := range []string{p, c16AbsW + "/" + p, "sub/../" + p} {
+			root := []string{"nope", c16LateDir, "public/a.txt", "nope/deeper", "late/sub"}[k8%5]
+			pat := []string{"0000", "1100", "1000", "0100"}[k8%4]
+			if root == "late/sub" {
+				pat = "0000"
+			}
+			dc := &c16Case{Kind: 1, Variant: 30 + k8%6, Prefix: "/assets", SubRoot: root, Late: pat}
+			dc.Path = lat1(c16DirMount(dc) + "/" + t)
+			out = append(out, dc)
+			if k8%4 == 0 && !strings.Contains(t, "@") {
+				out = append(out, &c16Case{Kind: 2, Variant: 10 + k8%2, SubRoot: root, Late: pat, File: t, Path: lat1([]string{"/f", "/g/f"}[k8%2])})
+			}
+			if k8%6 == 0 {
+				mc := &c16Case{Kind: 0, Mount: 0, FS: 16, SubRoot: root, Late: pat, Path: lat1("/" + t)}
+				out = append(out, mc)
+			}
+			k8++
+		}
 	}
 	// a fixed battery first: every outside target, encoded in every fashion, against the
 	// configurations whose file system is rooted above Root and against the plain ones
@@ -1739,6 +2243,15 @@ func c16Shrink(ci any) []any {
 	if c.Reassign != 0 {
 		add(func(d *c16Case) { d.Reassign = 0 })
 	}
+	if c.Second != 0 {
+		add(func(d *c16Case) { d.Second = 0 })
+	}
+	if c.Late != "" {
+		add(func(d *c16Case) { d.Late = "" })
+		if c.Late != "0000" && c.Late != "0011" {
+			add(func(d *c16Case) { d.Late = "0011" })
+		}
+	}
 	if c.PVal != "" && c.PVal != "x" && c.Kind == 1 && c.Variant >= 26 {
 		old := c16DirMount(c)
 		add(func(d *c16Case) {
@@ -1797,7 +2310,7 @@ func c16Shrink(ci any) []any {
 func init() {
 	register(&Prop{
 		ID:             "C16",
-		Rule:           "marker tree created at run time under <verif>/.work (root `public` with files, nested directories, a `...` directory, names with space, %, non-ASCII; secrets and look-alike siblings `public.bak`, `publicsecret`, `secret`, `index.html`, `static/` next to the root). Requests: raw targets over the adversarial segment alphabet (.., ., %2e, %2e%2e, %2f, %5c, \\, empty, double encodings, overlong/invalid UTF-8, malformed escapes; dot-dot look-alikes around bytes a sanitiser might drop — NUL, LF, CR, TAB, DEL, VT, space, U+200B, U+FEFF, U+00AD: `.%00.`, `%00..`, `..%00`, `.%2500.` — and names cut short at such a byte) mixed with real names, real paths spliced with one adversarial segment, encoded paths to the outside secrets, IgnoreBase shapes (last element = route base or `.`); URL.Path/RawPath derived as net/http would, or set verbatim. Configurations: Static middleware (StaticWithConfig and the convenience constructor Static(root)) x mount {e.Use, e.Pre, group /static, e.Use + catch-all route, group /files, e.Use + /st*, two instances in one chain} x Skipper {nil, false, true, by path prefix} x injected failures of the file objects {Stat of files, Stat of directories, Readdir} x file system {default http.Dir with absolute / relative / unclean / dot-dot Root (working directory W or the web root), recording http.Dir(root), http.Dir(parent)+Root, http.FS(os.DirFS), http.FS(os.DirFS(parent))+Root, http.FS(MapFS)+Root, http.FS(fs.Sub(MapFS))} x Index x HTML5 x Browse x IgnoreBase; Echo.Static / StaticFS / Group.Static / StaticFS (also mounted below path parameters — /v/:ver/assets, group /:tenant, /:a/:b/s — with parameter values that name files and directories under the root; also on a DEFAULT Echo.Filesystem that was first narrowed by MustSubFS of itself: absolute, relative, `..`, `.`, three levels) x {absolute, relative root, os.DirFS, fs.Sub(MapFS), custom Echo.Filesystem, MustSubFS} x prefixes; TIMING: in the child-process set-ups the working directory is changed after echo.New() or after the registration (Static routes on the default file system must keep the root of echo.New() time; the middleware's http.Dir(relative) and File on the default file system follow the process), and Echo.Filesystem is reassigned after the routes were registered (Static / StaticFS routes of Echo and Group keep their root; File routes follow). FileFS / File routes of Echo and Group, Context.FileFS / Attachment / Inline (Content-Disposition compared), File on the DEFAULT Echo.Filesystem (os.Open: relative to the working directory, absolute), a download handler taking the name from the request; MustSubFS roots (valid, unclean, climbing, rooted: must panic); fs.FS whose files fail Stat or cannot seek; a third request path may be served first through the same Echo (state carried between requests). The tree also holds names with URL-special bytes (+ & = ; ? # * : ~ $ ! ' ( ) , @ backslash, double space) next to look-alike siblings. Every regular file under the root is also requested by its clean path through every mount. non-trivial = request with dot-dot / percent / backslash / double slash, or a response that is a file or a listing; distinct = distinct model op lines",
+		Rule:           "marker tree created at run time under <verif>/.work (root `public` with files, nested directories, a `...` directory, names with space, %, non-ASCII; secrets and look-alike siblings `public.bak`, `publicsecret`, `secret`, `index.html`, `static/` next to the root). Requests: raw targets over the adversarial segment alphabet (.., ., %2e, %2e%2e, %2f, %5c, \\, empty, double encodings, overlong/invalid UTF-8, malformed escapes; dot-dot look-alikes around bytes a sanitiser might drop — NUL, LF, CR, TAB, DEL, VT, space, U+200B, U+FEFF, U+00AD: `.%00.`, `%00..`, `..%00`, `.%2500.` — and names cut short at such a byte) mixed with real names, real paths spliced with one adversarial segment, encoded paths to the outside secrets, IgnoreBase shapes (last element = route base or `.`); URL.Path/RawPath derived as net/http would, or set verbatim. Configurations: Static middleware (StaticWithConfig and the convenience constructor Static(root)) x mount {e.Use, e.Pre, group /static, e.Use + catch-all route, group /files, e.Use + /st*, two instances in one chain} x Skipper {nil, false, true, by path prefix} x injected failures of the file objects {Stat of files, Stat of directories, Readdir} x file system {default http.Dir with absolute / relative / unclean / dot-dot Root (working directory W or the web root), recording http.Dir(root), http.Dir(parent)+Root, http.FS(os.DirFS), http.FS(os.DirFS(parent))+Root, http.FS(MapFS)+Root, http.FS(fs.Sub(MapFS))} x Index x HTML5 x Browse x IgnoreBase; Echo.Static / StaticFS / Group.Static / StaticFS (also mounted below path parameters — /v/:ver/assets, group /:tenant, /:a/:b/s — with parameter values that name files and directories under the root; also on a DEFAULT Echo.Filesystem that was first narrowed by MustSubFS of itself: absolute, relative, `..`, `.`, three levels) x {absolute, relative root, os.DirFS, fs.Sub(MapFS), custom Echo.Filesystem, MustSubFS} x prefixes; TIMING: in the child-process set-ups the working directory is changed after echo.New() or after the registration (Static routes on the default file system must keep the root of echo.New() time; the middleware's http.Dir(relative) and File on the default file system follow the process), and Echo.Filesystem is reassigned after the routes were registered (Static / StaticFS routes of Echo and Group keep their root; File routes follow). FileFS / File routes of Echo and Group, Context.FileFS / Attachment / Inline (Content-Disposition compared), File on the DEFAULT Echo.Filesystem (os.Open: relative to the working directory, absolute), a download handler taking the name from the request; MustSubFS roots (valid, unclean, climbing, rooted: must panic); fs.FS whose files fail Stat or cannot seek; a third request path may be served first through the same Echo (state carried between requests). ROOT EXISTENCE (round 8): Static / Group.Static / StaticFS(MustSubFS) / File routes on the DEFAULT file system (relative, absolute, second-level roots) and the Static middleware whose root does not exist when the route is registered / the middleware constructed - never there, a regular file, or a directory `late` that the case creates and removes between echo.New(), the registration, a first request and the request (all 4-moment histories) - with requests naming files of the working directory by relative, absolute (after a double slash) and climbing names, and every file of the late directory by its clean path for every history in which it exists at the request. TWO static routes on one Echo (Echo.Static / Group.Static / StaticFS / FileFS registered before or after the case's own one, rooted at a tree with the same file names): each mount answers from its own root. The exported echo.StaticDirectoryHandler mounted by hand, with path unescaping disabled (the parameter is used as it is; names with % are served by their clean path) and enabled. The tree also holds names with URL-special bytes (+ & = ; ? # * : ~ $ ! ' ( ) , @ backslash, double space) next to look-alike siblings. Every regular file under the root is also requested by its clean path through every mount. non-trivial = request with dot-dot / percent / backslash / double slash, or a response that is a file or a listing; distinct = distinct model op lines",
 		New:            func() any { return &c16Case{} },
 		Gen:            func(r *rand.Rand, tier string) []any { c16Setup(); return c16Gen(r, tier) },
 		Run:            c16Run,
@@ -1828,6 +2341,11 @@ func init() {
 func c16Known(ci any, res Result, modelObs string) string {
 	c := ci.(*c16Case)
 	if !strings.HasPrefix(res.Oracle, "existing file ") || c.RawPath != "" || !strings.Contains(string(c.Path), "%") || c.Kind == 2 {
+		return ""
+	}
+	if c.Kind == 1 && (c.Variant == 36 || c.Variant == 37) {
+		// StaticDirectoryHandler(fsys, true) does not unescape: a name with '%' IS served by its clean path
+		// (C16_raw_serves_clean_path); a failure there is not F18
 		return ""
 	}
 	if c16ObsRefusal(c, res.Obs) {
